@@ -22,7 +22,7 @@ RULE = ('descriptor = seeded batch of scenarios; scenario = 1..8 distinct regist
         'header of those ports dispatched after every step.')
 ASSUMPTIONS = ['matching rule: (header port & port mask) == registered port and (header channel & channel mask) == '
                'registered channel']
-REQUIRED = ['mon.received_packets_readdressed_by_a_callback', 'mon.scenarios_with_a_second_dispatcher_in_the_process', 'mon.packets_without_payload', 'mon.removals_of_absent_registrations', 'mon.packets', 'mon.must_deliveries', 'mon.mutations_executed', 'mon.raising_callbacks',
+REQUIRED = ['mon.bound_method_registrations_removed_through_a_fresh_lookup_of_the_method', 'mon.received_packets_readdressed_by_a_callback', 'mon.scenarios_with_a_second_dispatcher_in_the_process', 'mon.packets_without_payload', 'mon.removals_of_absent_registrations', 'mon.packets', 'mon.must_deliveries', 'mon.mutations_executed', 'mon.raising_callbacks',
             'mon.caller_calls', 'mon.self_removals', 'mon.shared_callback_removals',
             'mon.shared_callback_multi_pattern_deliveries', 'mon.deliveries_through_the_public_wrappers']
 
@@ -156,10 +156,16 @@ def run_scenario(ctx, regs, script, raising, headers, label):
             state['absent_removals'] = state.get('absent_removals', 0) + 1
         if not live['on']:
             return
+        # a bound method is looked up again when it is removed (`obj.method` is a new, equal object every time)
+        cb_ = holders[rid].method if rid in holders else cbs[rid]
+        if rid in holders and present:
+            state['bound_removed'] = state.get('bound_removed', 0) + 1
         if r['api'] == 'port':
-            handler.remove_port_callback(r['port'], cbs[rid])
+            handler.remove_port_callback(r['port'], cb_)
         else:
-            handler.remove_header_callback(cbs[rid], r['port'], r['chan'], r['pmask'], r['cmask'])
+            handler.remove_header_callback(cb_, r['port'], r['chan'], r['pmask'], r['cmask'])
+
+    holders = {}
 
     def mk(rid):
         def cb(pk):
@@ -212,6 +218,7 @@ def run_scenario(ctx, regs, script, raising, headers, label):
                 def method(self, pk):
                     return cb(pk)
             keep.append(_Holder())
+            holders[rid] = keep[-1]
             return keep[-1].method
         return cb
 
@@ -327,6 +334,7 @@ def run_scenario(ctx, regs, script, raising, headers, label):
     ctx.count('mon.mutations_executed', state['mut'])
     ctx.count('mon.self_removals', state['selfrem'])
     ctx.count('mon.removals_of_absent_registrations', state.get('absent_removals', 0))
+    ctx.count('mon.bound_method_registrations_removed_through_a_fresh_lookup_of_the_method', state.get('bound_removed', 0))
     ctx.count('mon.received_packets_readdressed_by_a_callback', state.get('readdressed', 0))
     if state.get('library_call_raised'):
         ctx.count('obs.add_or_remove_call_raised_inside_a_callback')
